@@ -16,7 +16,23 @@ use std::time::{Duration, Instant};
 const KNOWN_WORDS: &[&str] = &["isready", "ucinewgame", "position", "go", "setoption", "quit", "uci"];
 
 pub fn garbage_line(rng: &mut Rng) -> String {
-    let line = match rng.below(14) {
+    let line = match rng.below(15) {
+        14 => {
+            // a command with a stray control character (or an invisible Unicode character) INSIDE
+            // its first word: not a command, whatever it looks like once the character is dropped
+            let cmd = *rng.pick(&["quit", "isready", "position startpos moves e2e4", "go", "ucinewgame", "position fen 8/8/8/8/8/8/8/K6k w - - 0 1", "setoption name DebugLogLevel value Info", "quit", "position startpos moves d2d4 d7d5"]);
+            let first_len = cmd.split(' ').next().unwrap().len();
+            let at = 1 + rng.below(first_len as u64 - 1) as usize;
+            let ins: &[u8] = *rng.pick(&[&b"\x00"[..], &b"\x07"[..], &b"\x1b"[..], &b"\x7f"[..], &b"\x01"[..], &b"\x1f"[..], &b"\x08"[..], &"\u{200b}".as_bytes()[..], &"\u{ad}".as_bytes()[..], &"\u{feff}".as_bytes()[..], &"\u{9b}".as_bytes()[..]]);
+            let mut bytes = cmd.as_bytes()[..at].to_vec();
+            bytes.extend_from_slice(ins);
+            bytes.extend_from_slice(&cmd.as_bytes()[at..]);
+            let mut hex = String::from("RAWHEX:");
+            for b in bytes {
+                hex.push_str(&format!("{:02x}", b));
+            }
+            return hex;
+        }
         13 => {
             // a long unknown line made of command words: whatever piece of it a reader might
             // mistake for a line of its own (a bounded or chunked read) would be a real command
@@ -336,7 +352,7 @@ fn check_eof(bin: &PathBuf, rng: &mut Rng, roots: &[History], acc: &mut Acc, sid
 
 pub fn run(tier: Tier, seed: u64) -> i32 {
     let mut run = Run::new("C17", tier, seed, "exploration");
-    run.rule = "evaluation = one observation on a session of the real binary: (a) an isready probe after unknown lines, (b) the bestmove sequence of a script of well-formed commands (position + zero-slice go chains with unknown go tokens, ucinewgame, isready) with unknown/garbage lines inserted at random points compared with the same script without them, and with surplus blanks/tabs/trailing CR in the well-formed commands, (c) no 'panicked' on stderr and no exit, (d) quit ends the process within 2 s (solo-confirmed), (b') the same script with its unknown lines written without waiting for any reply (one write / per line / pieces that cut lines in two) and ended by quit or end of input: same answers in the same order, the process gone within 2 s of the last answer and not spinning, (e) closing stdin before uci / after the handshake / mid-session / right after a timed go / in the middle of a line (no final newline) ends the process within slice + 2 s and it does not burn CPU meanwhile (process CPU time vs wall time over 300 ms). Unknown lines: empty, blanks/tabs, unknown words, random printable ASCII, Unicode, BOM, comment-like, 3000-character lines, lines of up to a megabyte, long lines made of command words, NUL bytes and lone carriage returns, bytes that are not valid UTF-8; never starting with a command word. Non-trivial = every script / EOF session; distinct by seed index".into();
+    run.rule = "evaluation = one observation on a session of the real binary: (a) an isready probe after unknown lines, (b) the bestmove sequence of a script of well-formed commands (position + zero-slice go chains with unknown go tokens, ucinewgame, isready) with unknown/garbage lines inserted at random points compared with the same script without them, and with surplus blanks/tabs/trailing CR in the well-formed commands, (c) no 'panicked' on stderr and no exit, (d) quit ends the process within 2 s (solo-confirmed), (b') the same script with its unknown lines written without waiting for any reply (one write / per line / pieces that cut lines in two) and ended by quit or end of input: same answers in the same order, the process gone within 2 s of the last answer and not spinning, (e) closing stdin before uci / after the handshake / mid-session / right after a timed go / in the middle of a line (no final newline) ends the process within slice + 2 s and it does not burn CPU meanwhile (process CPU time vs wall time over 300 ms). Unknown lines: empty, blanks/tabs, unknown words, random printable ASCII, Unicode, BOM, comment-like, 3000-character lines, lines of up to a megabyte, long lines made of command words, command words with a control or invisible character inside, NUL bytes and lone carriage returns, bytes that are not valid UTF-8; never starting with a command word. Non-trivial = every script / EOF session; distinct by seed index".into();
     run.assumptions = vec![
         "garbage lines include byte sequences that are not valid UTF-8 (a line is whatever ends with a newline)".into(),
         "lines that begin with a known command word but are malformed are not 'unknown input' and are excluded".into(),
